@@ -145,12 +145,12 @@ type timing struct {
 
 var allSpacings = []time.Duration{10 * time.Second, 35 * time.Second}
 
-func schedule(n, k int, delta, spacing time.Duration) timing {
+func schedule(n, k int, delta, spacing, lag time.Duration) timing {
 	t := timing{emitAt: make([]time.Duration, n)}
 	for i := 0; i < k; i++ {
 		t.emitAt[i] = time.Duration(i+1) * spacing
 	}
-	t.tDisc = time.Duration(k)*spacing + 100*time.Millisecond
+	t.tDisc = time.Duration(k)*spacing + lag
 	m := n - k
 	sp := 10 * time.Second
 	if time.Duration(m)*sp+time.Second > delta {
